@@ -36,6 +36,11 @@ def gen_family(rng):
                 methods[m] = {'dec': True, 'watch': weighted(rng, [(True, 6), ('queued', 1.5), (False, 1.5)]),
                               'on_init': rng.random() < 0.25, 'deps': deps}
         classes.append({'bases': bs, 'methods': methods, 'redeclare': (ci > 0 and rng.random() < 0.15)})
+        # a method may itself assign parameter c (never one that depends on c, and not a queued one): a one-level cascade
+        for m, d in methods.items():
+            if (m != 'b0' and d.get('dec') and d.get('watch') is True and rng.random() < 0.3 and
+                    ('c', 'value') not in closure(classes, ci, m)):
+                d['sets'] = 'c'
     return classes
 
 
@@ -194,9 +199,17 @@ class DependsWorld:
         log = []
         real = []
 
+        depth = [0]
+
         def make_method(ci, mname, d):
             def body(self):
                 log.append((f"K{ci}", mname))
+                if d.get('sets') and depth[0] < 6 and len(log) < 300:     # the guard only matters on a broken tree (runaway cascade)
+                    depth[0] += 1
+                    try:
+                        setattr(self, d['sets'], fresh())
+                    finally:
+                        depth[0] -= 1
             body.__name__ = mname
             if d.get('dec'):
                 return param.depends(*d['deps'], watch=d['watch'], on_init=d['on_init'])(body)
@@ -222,11 +235,14 @@ class DependsWorld:
             return counter[0] % 90 + 1 if False else counter[0]
         insts, icls = [], []
 
+        last_setters = [0]
+
         def expect_for(ci, changed, init=False):
             exp = []
             names = set()
             for k in mro_of(classes, ci):
                 names |= set(classes[k]['methods'])
+            setters = 0
             for m in sorted(names):
                 k, d = active_def(classes, ci, m)
                 if not d.get('dec') or not d.get('watch'):
@@ -234,8 +250,17 @@ class DependsWorld:
                 if init:
                     if d.get('on_init'):
                         exp.append((f"K{k}", m))
+                        setters += 1 if d.get('sets') else 0
                 elif closure(classes, ci, m) & changed:
                     exp.append((f"K{k}", m))
+                    setters += 1 if d.get('sets') else 0
+            # every invoked setter assigns c once: each such assignment runs every method watching c once
+            if setters:
+                for m in sorted(names):
+                    k, d = active_def(classes, ci, m)
+                    if d.get('dec') and d.get('watch') and ('c', 'value') in closure(classes, ci, m):
+                        exp.extend([(f"K{k}", m)] * setters)
+            last_setters[0] = setters
             return sorted(exp)
 
         def check(step, what, exp):
@@ -347,6 +372,8 @@ class DependsWorld:
             for fi, deps in enumerate(ffs):
                 if any(di == i and (p, 'value') in changed for di, p in deps):
                     exp.append(('FF', f"f{fi}"))
+                if any(di == i and p == 'c' for di, p in deps):
+                    exp.extend([('FF', f"f{fi}")] * last_setters[0])      # each setter's assignment of c is a change of its own
             exp.sort()
             if len(changed) > 1:
                 multi = True
